@@ -208,6 +208,7 @@ pub struct TextCase { pub text: String }
 pub fn check_text(c: &TextCase) -> CheckResult {
     // no input text makes the parser crash (panics are caught by the engine); accepted texts answer lookups consistently
     let r = Keyring::new(&c.text);
+    if let Ok(kr) = &r { for l in c.text.lines() { if let Some(n) = l.strip_prefix("Name = ") { if let Some(k) = kr.get_key(n) { ensure!(k.name == n && !n.is_empty() && n.len() <= 128, "accepted keyring holds the name {:?} ({} bytes)", n, n.len()); } } } }
     if let Ok(kr) = &r { if let Some(k) = kr.get_key("a") { ensure!(k.name == "a" && !k.public_key.as_str().is_empty(), "lookup returned an entry with another name"); } }
     ok(c.text.contains("[Key]"), if r.is_ok() { "accepted" } else { "rejected" })
 }
@@ -222,6 +223,13 @@ pub fn run(ctx: &Ctx) {
     ctx.pbt("tool_written_keyrings", ctx.n(200_000, 1_500_000), || (proptest::collection::vec(name_strategy(), 1..6), any::<u64>(), any::<bool>()).prop_map(|(names, seed, leading_newline)| Written { names, seed, leading_newline }), check_written);
     // every code point below U+3100 at start, middle and end of a name
     ctx.sse("name_code_points", "every code point < U+3100 placed at the start, middle and end of a name", 0x3100 * 3, |i| { let ch = char::from_u32((i / 3) as u32).unwrap_or('x'); let n = match i % 3 { 0 => format!("{}ab", ch), 1 => format!("a{}b", ch), _ => format!("ab{}", ch) }; Written { names: vec![n, "other".into()], seed: 9, leading_newline: false } }, check_written);
+    // error paths that mention a name: duplicates and over-long names made of multi-byte characters at every byte alignment
+    let mut uni = Vec::new();
+    for ch in ['é', '€', '😀', 'a'] { for k in 0..4usize { for n in 1..=70usize { let name = format!("{}{}", "x".repeat(k), ch.to_string().repeat(n)); if name.len() > 150 { break; }
+        uni.push(TextCase { text: format!("[Key]\nName = {}\nPublicKey = {}\n\n[Key]\nName = {}\nPublicKey = {}\n", name, vals().pk[0], name, vals().pk[1]) });
+        uni.push(TextCase { text: format!("[Key]\nName = {}\nPublicKey = {}\n[Key]\nName = other\nPublicKey = {}\n", name, vals().pk[0], vals().pk[0]) });
+        uni.push(TextCase { text: format!("[Key]\nName = {}\nName = {}\nPublicKey = {}\n", name, name, vals().pk[0]) }); } } }
+    ctx.sse_vec("unicode_names_in_error_paths", "names x^k + c^n for c in {2,3,4-byte, ASCII}, k 0..3, byte length up to 150: duplicated across sections, with a duplicate public key, duplicated inside a section", uni, check_text);
     ctx.pbt("random_texts", ctx.n(30_000, 800_000), || prop_oneof!["\\PC{0,200}", "(\\[Key\\]|Name|PublicKey|PrivateKey|=| |\t|\n|\r\n|#|[a-zA-Z0-9+/]{1,48}){0,40}"].prop_map(|text| TextCase { text }), check_text);
     let mut pk = Vec::new();
     for len in 0..=60usize { for g in [false, true] { pk.push(PkCase::Blob { seed: ctx.seed ^ len as u64, len, good_checksum: g }); } }
